@@ -64,6 +64,7 @@ type Obligation struct {
 	Pos     string
 	Detail  string
 	cmdIdx  int
+	blk      int
 	MustFail bool        // vacuity guard: this formula must NOT be provable
 	Houdini *houdiniCand // non-nil: candidate invariant check, failure drops the candidate silently
 
@@ -77,6 +78,7 @@ type Cmd struct {
 	kind byte // 'd' declaration/definition, 'a' assumption, 'o' obligation
 	text string
 	ob   *Obligation
+	blk  int // index of the basic block the command was generated in (-1: not tied to a block)
 }
 
 type loopInfo struct {
@@ -129,6 +131,13 @@ type Sess struct {
 	havocCalls map[string]bool
 	deadCands map[string]bool
 	preDead map[string]bool
+	curBlk int
+	noSlice bool
+	reachTo map[int]map[int]bool
+	namePrefix string
+	nInline int
+	inlined map[string]bool
+	inlineDepth int
 	mapIters map[*ssa.Range]*mapIter
 	absStr bool
 	epochTop map[string]string
@@ -145,14 +154,15 @@ type retInfo struct {
 	st   *State
 	vals []Val
 	pos  token.Pos
+	blk  int
 }
 
-func (s *Sess) emitDecl(t string)   { s.cmds = append(s.cmds, Cmd{'d', t, nil}) }
+func (s *Sess) emitDecl(t string)   { s.cmds = append(s.cmds, Cmd{'d', t, nil, s.curBlk}) }
 func (s *Sess) assume(f string) {
 	if f == "true" || f == "" {
 		return
 	}
-	s.cmds = append(s.cmds, Cmd{'a', "(assert " + f + ")", nil})
+	s.cmds = append(s.cmds, Cmd{'a', "(assert " + f + ")", nil, s.curBlk})
 }
 func (s *Sess) assumeAt(st *State, f string) { s.assume(implies(st.reach, f)) }
 
@@ -169,7 +179,7 @@ func (s *Sess) define(prefix, sort, term string) string {
 		return term
 	}
 	n := s.fresh(prefix, sort)
-	s.cmds = append(s.cmds, Cmd{'d', fmt.Sprintf("(assert (= %s %s))", n, term), nil})
+	s.cmds = append(s.cmds, Cmd{'d', fmt.Sprintf("(assert (= %s %s))", n, term), nil, s.curBlk})
 	return n
 }
 
@@ -184,7 +194,8 @@ func (s *Sess) posOf(p token.Pos) string {
 func (s *Sess) oblige(st *State, kind, name, formula string, pos token.Pos, detail string) *Obligation {
 	ob := &Obligation{Name: s.eng.fnShort(s.fn) + "#" + name, Kind: kind, Formula: implies(st.reach, formula), Pos: s.posOf(pos), Detail: detail}
 	ob.cmdIdx = len(s.cmds)
-	s.cmds = append(s.cmds, Cmd{'o', "", ob})
+	ob.blk = s.curBlk
+	s.cmds = append(s.cmds, Cmd{'o', "", ob, s.curBlk})
 	s.obs = append(s.obs, ob)
 	return ob
 }
@@ -202,6 +213,15 @@ func (s *Sess) unsupp(f string, a ...any) {
 // ---------------------------------------------------------------------------------------------
 // heap access
 
+// global runs f with commands attributed to no block, so that facts established once (and deduped)
+// are visible to every sliced query.
+func (s *Sess) global(f func()) {
+	saved := s.curBlk
+	s.curBlk = -1
+	f()
+	s.curBlk = saved
+}
+
 func (s *Sess) baseTerm(base, key, sort string) string {
 	if base == "" {
 		base = "H0"
@@ -210,12 +230,17 @@ func (s *Sess) baseTerm(base, key, sort string) string {
 	n := q(base + ":" + key)
 	if !s.ufDecl[n] {
 		s.ufDecl[n] = true
+		blk := s.curBlk
+		if base == "H0" {
+			s.curBlk = -1 // facts about the initial heap hold everywhere
+		}
 		s.emitDecl(fmt.Sprintf("(declare-const %s %s)", n, sort))
 		top := s.epochTop[base]
 		if top == "" {
 			top = "top0"
 		}
 		s.wfRegion(n, key, top)
+		s.curBlk = blk
 	}
 	return n
 }
@@ -226,6 +251,10 @@ func (s *Sess) wfRegion(term, key, top string) {
 	ri, ok := regInfo.Load(key)
 	if !ok {
 		return
+	}
+	if strings.HasPrefix(key, "G:ext:") {
+		// objects not allocated yet carry no extension
+		s.assume(fmt.Sprintf("(forall ((o Int)) (! (=> (>= o %s) (= (select %s o) 0)) :pattern ((select %s o))))", top, term, term))
 	}
 	r := ri.(regionInfo)
 	T := r.typ
@@ -319,7 +348,8 @@ func (s *Sess) subRef(T types.Type, idx int, ref string) string {
 	if !s.subDone[t] {
 		s.subDone[t] = true
 		tag := s.tc.tagOf(types.NewPointer(types.NewTuple(types.NewVar(token.NoPos, nil, name, T)))) // unique tag per (T, field)
-		s.assume(fmt.Sprintf("(and (= (%s %s) %s) (< %s 0) (= (subtag %s) %d))", inv, t, ref, t, t, tag))
+		fact := fmt.Sprintf("(and (= (%s %s) %s) (< %s 0) (= (subtag %s) %d))", inv, t, ref, t, t, tag)
+		s.global(func() { s.assume(fact) })
 	}
 	return t
 }
@@ -558,11 +588,13 @@ func (s *Sess) val(v ssa.Value) Val {
 		n := q("g:" + v.Pkg.Pkg.Path() + "." + v.Name())
 		if !s.ufDecl[n] {
 			s.ufDecl[n] = true
-			s.emitDecl(fmt.Sprintf("(declare-const %s Int)", n))
-			s.assume(fmt.Sprintf("(and (< 0 %s) (< %s top0))", n, n))
-			for _, g := range s.globals {
-				s.assume(fmt.Sprintf("(distinct %s %s)", n, g))
-			}
+			s.global(func() {
+				s.emitDecl(fmt.Sprintf("(declare-const %s Int)", n))
+				s.assume(fmt.Sprintf("(and (< 0 %s) (< %s top0))", n, n))
+				for _, g := range s.globals {
+					s.assume(fmt.Sprintf("(distinct %s %s)", n, g))
+				}
+			})
 			s.globals = append(s.globals, n)
 		}
 		x := Val{t: n, typ: v.Type()}
@@ -572,8 +604,10 @@ func (s *Sess) val(v ssa.Value) Val {
 		n := q("fn:" + v.String())
 		if !s.ufDecl[n] {
 			s.ufDecl[n] = true
-			s.emitDecl(fmt.Sprintf("(declare-const %s Int)", n))
-			s.assume(fmt.Sprintf("(and (< 0 %s) (< %s top0))", n, n))
+			s.global(func() {
+				s.emitDecl(fmt.Sprintf("(declare-const %s Int)", n))
+				s.assume(fmt.Sprintf("(and (< 0 %s) (< %s top0))", n, n))
+			})
 		}
 		return Val{t: n, typ: v.Type()}
 	case *ssa.Builtin:
@@ -588,9 +622,9 @@ func (s *Sess) val(v ssa.Value) Val {
 
 func (s *Sess) setVal(v ssa.Value, term string, st *State) Val {
 	T := v.Type()
-	name := q("v:" + v.Name())
+	name := q("v:" + s.namePrefix + v.Name())
 	s.emitDecl(fmt.Sprintf("(declare-const %s %s)", name, s.tc.sortOf(T)))
-	s.cmds = append(s.cmds, Cmd{'d', fmt.Sprintf("(assert (= %s %s))", name, term), nil})
+	s.cmds = append(s.cmds, Cmd{'d', fmt.Sprintf("(assert (= %s %s))", name, term), nil, s.curBlk})
 	x := Val{t: name, typ: T}
 	s.env[v] = x
 	return x
@@ -598,7 +632,7 @@ func (s *Sess) setVal(v ssa.Value, term string, st *State) Val {
 
 func (s *Sess) havocVal(v ssa.Value, st *State) Val {
 	T := v.Type()
-	name := q("v:" + v.Name())
+	name := q("v:" + s.namePrefix + v.Name())
 	s.emitDecl(fmt.Sprintf("(declare-const %s %s)", name, s.tc.sortOf(T)))
 	s.assumeAt(st, s.wf(name, T, st.top))
 	x := Val{t: name, typ: T}
@@ -826,6 +860,7 @@ func (s *Sess) run() {
 		s.deadCands = map[string]bool{}
 	}
 	s.paramVals = map[string]Val{}
+	s.inlined = map[string]bool{}
 	s.mapIters = map[*ssa.Range]*mapIter{}
 	s.epochTop = map[string]string{}
 	s.tc = newTypeCtx(s.emitDecl)
@@ -864,6 +899,7 @@ func (s *Sess) run() {
 	s.findLoops()
 	s.computeLoopMods()
 
+	s.curBlk = -1
 	entry := &State{reach: "true", heap: map[string]string{}, top: "top0", base: "H0"}
 	s.entry = entry
 	for _, p := range fn.Params {
@@ -909,6 +945,7 @@ func (s *Sess) run() {
 
 	order := s.rpo()
 	for _, b := range order {
+		s.curBlk = b.Index
 		st := s.enterBlock(b)
 		for _, in := range b.Instrs {
 			s.exec(in, st)
@@ -958,7 +995,8 @@ func (s *Sess) enterBlock(b *ssa.BasicBlock) *State {
 }
 
 func (s *Sess) finish() {
-	// merge returns and check postconditions
+	// postconditions are checked at every return separately: the state of one return has no merged
+	// (ite) heaps and only the blocks that can reach it matter
 	var live []retInfo
 	for _, r := range s.rets {
 		if r.st.reach != "false" {
@@ -971,76 +1009,26 @@ func (s *Sess) finish() {
 	if s.ct == nil || len(s.ct.Ensures) == 0 || len(s.rets) == 0 {
 		return
 	}
-	var conds []string
 	for _, r := range s.rets {
-		conds = append(conds, r.st.reach)
-	}
-	final := &State{heap: map[string]string{}, base: s.rets[0].st.base}
-	final.reach = s.define("r:exit", "Bool", or(conds...))
-	keys := map[string]bool{}
-	for _, r := range s.rets {
-		for k := range r.st.heap {
-			keys[k] = true
-		}
-		if r.st.base != final.base {
-			for k := range s.regionSort {
-				keys[k] = true
+		s.curBlk = r.blk
+		for i, c := range s.ct.Ensures {
+			if c.E == nil {
+				continue
 			}
-			s.nfresh++
-			final.base = fmt.Sprintf("Hj%d", s.nfresh)
-		}
-	}
-	ite := func(terms []string) string {
-		r := terms[len(terms)-1]
-		for i := len(terms) - 2; i >= 0; i-- {
-			if terms[i] != r {
-				r = fmt.Sprintf("(ite %s %s %s)", conds[i], terms[i], r)
+			ce := s.funcEnv(r.st, s.entry, r.vals)
+			f, err := ce.evalBool(c.E)
+			label := c.Label
+			if label == "" {
+				label = fmt.Sprintf("%d", i)
 			}
-		}
-		return r
-	}
-	for _, k := range sortedKeys(keys) {
-		var terms []string
-		for _, r := range s.rets {
-			t, ok := r.st.heap[k]
-			if !ok {
-				t = s.baseTerm(r.st.base, k, s.regionSort[k])
+			if err != nil {
+				s.unsupp("ensures %q: %v", c.Src, err)
+				continue
 			}
-			terms = append(terms, t)
+			s.oblige(r.st, "post", "post."+label, f, r.pos, c.Src)
 		}
-		final.heap[k] = s.define("Hx:"+k, s.regionSort[k], ite(terms))
 	}
-	var tops []string
-	for _, r := range s.rets {
-		tops = append(tops, r.st.top)
-	}
-	final.top = s.define("top", "Int", ite(tops))
-	var results []Val
-	nres := s.fn.Signature.Results().Len()
-	for i := 0; i < nres; i++ {
-		var terms []string
-		for _, r := range s.rets {
-			terms = append(terms, r.vals[i].t)
-		}
-		T := s.fn.Signature.Results().At(i).Type()
-		results = append(results, Val{t: s.define(fmt.Sprintf("result%d", i), s.tc.sortOf(T), ite(terms)), typ: T})
-	}
-	for i, c := range s.ct.Ensures {
-		if c.E == nil {
-			continue
-		}
-		ce := s.funcEnv(final, s.entry, results)
-		f, err := ce.evalBool(c.E)
-		label := c.Label
-		if label == "" {
-			label = fmt.Sprintf("%d", i)
-		}
-		if err != nil {
-			s.unsupp("ensures %q: %v", c.Src, err)
-			continue
-		}
-		s.oblige(final, "post", "post."+label, f, s.fn.Pos(), c.Src)
-	}
+	s.curBlk = -1
 }
 
 // coverCheck is the vacuity guard: some return must be reachable under all assumptions made.
